@@ -137,6 +137,13 @@ def gen_world(rng, flavour):
     w['probe_names'] = w['universe'] + [NEVER] + \
         (['default'] if 'default' not in w['universe'] else [])
 
+    return gen_layout(rng, w, flavour)
+
+
+def gen_layout(rng, w, flavour):
+    """Configuration and initial disk for a world whose registry (roles,
+    defaults, names) is already fixed."""
+    w['fs_seed'] = '%016x' % rng.getrandbits(64)
     # ---- configuration
     c = {}
     ndirs = rng.choice((0, 1, 1, 2, 2, 3))
@@ -307,6 +314,14 @@ def gen_ops(rng, w, n=None, mix=None, bias=None, main_bias=0.35):
     return ops, mix
 
 
+def gen_edit(rng, w, bias=None):
+    """exactly one operator edit"""
+    while True:
+        ops, _ = gen_ops(rng, w, n=1, mix='quiet', bias=bias)
+        if 'path' in ops[0]:
+            return ops[0]
+
+
 # ------------------------------------------------------------------ model
 
 class Model:
@@ -438,17 +453,21 @@ def probes_for(w):
 class DiskSim:
     """Executes a world: disk (SimFS or real), conf, enforcers, operator."""
 
-    def __init__(self, world, backend='sim', digest=None, rng_cls=None):
+    def __init__(self, world, backend='sim', digest=None, fs=None,
+                 sub=None):
         import random
         self.w = world
         self.digest = digest
-        if backend == 'sim':
+        self.own_fs = fs is None
+        if fs is not None:
+            self.fs = fs
+        elif backend == 'sim':
             self.fs = simfs.SimFS(random.Random('fs:' + world['fs_seed']),
                                   t0=world['t0'], digest=digest)
         else:
             self.fs = simfs.RealFS(t0=world['t0'])
         simfs.use(self.fs)
-        self.root = self.fs.root
+        self.root = self.fs.root + ('/' + sub if sub else '')
         self.content = {}
         self.dirs = set()
         self.model = Model(world)
@@ -484,8 +503,9 @@ class DiskSim:
             if d.startswith('@ROOT/') else d
 
     def close(self):
-        self.fs.close()
-        simfs.use(None)
+        if self.own_fs:
+            self.fs.close()
+            simfs.use(None)
 
     # ---- library objects, public API only
     def build_conf(self):
